@@ -25,7 +25,7 @@ def plans(tier):
 
 
 def run(tier):
-    return pc.run_check("C04", tier, ("C04",), plans(tier), clauses={"DispatchInWindow"}, extra=fine_grained, guards={"thr2"})
+    return pc.run_check("C04", tier, ("C04",), plans(tier), clauses={"DispatchInWindow"}, extra=fine_grained, guards={"thr2"}, samehost={"thr2"})
 
 
 def fine_grained(chk, sd, binp):
